@@ -130,3 +130,11 @@ def check(prog: Program, rep):
     from rules.c12 import apply_before_run
     max_occurrence_rule(prog, RuleProxy(rep, "C05.R9"), "C10.R5")
     apply_before_run(prog, RuleProxy(rep, "C05.R9"), "C12.R5")
+    rep.rule("C05.R10", "option interplay: greedy is not taken with given weights, flow-safe paths override (not reject) the other safety options, percentile-trusted "
+             "edges carry flow, flow-safe paths only for the whole flow (C10.R8)", floor=6)
+    from rules import plumb
+    from rules.common import RuleProxy
+    plumb.whole_flow_shortcuts_rule(prog, RuleProxy(rep, "C05.R10"), "C10.R8")
+    plumb.flow_safe_override_rule(prog, rep, "C05.R10")
+    plumb.percentile_rules(prog, RuleProxy(rep, "C05.R10"), "C10.R8")
+
